@@ -4,7 +4,10 @@ package main
 // answers are known by construction (which object must come back, which calls must be refused) or
 // come from a twenty-line reference reading of the statement: the definition in force for a name is
 // its first explicit one, else its first default one; a name is `good` when that definition is an
-// instance or a factory that returns an object and whose required dependencies are all good.
+// instance or a factory that returns an object and whose required dependencies are all good (and
+// whose InjectTo edges name no nil object and are accepted by the registered injectors).  A tag is
+// read as: empty = skip, one leading `?` = optional; InjectTo fills the provider's tags first and then
+// runs the registered injectors in registration order, each over its own tag name.
 //
 // Output: `FAIL <clause> <detail> :: <op>;<op>;…` (the op list replays through drive/m_di) and a
 // final `oracle cases=… fails=… <clause>=<evaluations>…` line.
@@ -25,15 +28,19 @@ import (
 )
 
 type odef struct {
-	kind string // set | setdefault | factory | deffactory
-	name string
-	spec facSpec
+	kind  string // set | setdefault | factory | deffactory
+	name  string
+	isNil bool // Set(name, nil) / SetDefault(name, nil)
+	spec  facSpec
 }
 
 func (d odef) line() string {
 	switch d.kind {
 	case "set", "setdefault":
-		return d.kind + " " + d.name
+		if d.isNil {
+			return d.kind + " " + nameTok(d.name) + " nil"
+		}
+		return d.kind + " " + nameTok(d.name)
 	}
 	items := make([]string, len(d.spec.deps))
 	for i, e := range d.spec.deps {
@@ -44,9 +51,18 @@ func (d odef) line() string {
 		if e.inject {
 			v = "i"
 		}
-		items[i] = e.name + ":" + o + ":" + v
+		items[i] = nameTok(e.name) + ":" + o + ":" + v
 	}
-	return fmt.Sprintf("%s %s %s %s", d.kind, d.name, join(items), d.spec.out)
+	return fmt.Sprintf("%s %s %s %s", d.kind, nameTok(d.name), join(items), d.spec.out)
+}
+
+// the name an edge of a factory asks the provider for, whether it tolerates a failure, and whether it
+// asks for nothing (an InjectTo edge with an empty tag)
+func (e depSpec) eff() (name string, optional, skip bool) {
+	if !e.inject {
+		return e.name, e.optional, false
+	}
+	return parseTag(e.rawTag())
 }
 
 func (d odef) explicit() bool { return d.kind == "set" || d.kind == "factory" }
@@ -65,6 +81,12 @@ type ocase struct {
 	ran     []string
 	serial  int
 	setObjs map[int]*oObj
+	regs    []builtInj // the registered injectors (with the data they were built from)
+}
+
+func (c *ocase) newInjObj() interface{} {
+	c.serial++
+	return &oObj{origin: -3, serial: c.serial}
 }
 
 func (c *ocase) factory(idx int) app.Factory {
@@ -72,23 +94,16 @@ func (c *ocase) factory(idx int) app.Factory {
 	return func(dp app.DependencyProvider) (interface{}, error) {
 		c.calls[d.name]++
 		c.ran = append(c.ran, d.name)
-		for i := 0; i < len(d.spec.deps); {
-			e := d.spec.deps[i]
+		for i, e := range d.spec.deps {
 			if !e.inject {
 				if _, err := dp.Get(e.name); err != nil && !e.optional {
 					return nil, err
 				}
-				i++
 				continue
 			}
-			j := i
-			for j < len(d.spec.deps) && d.spec.deps[j].inject {
-				j++
-			}
-			if err := dp.InjectTo(structForT(d.spec.deps[i:j], true).Interface()); err != nil {
+			if err := dp.InjectTo(structForT(d.spec.deps[i:i+1], true).Interface()); err != nil {
 				return nil, err
 			}
-			i = j
 		}
 		switch d.spec.out {
 		case "fail":
@@ -103,23 +118,35 @@ func (c *ocase) factory(idx int) app.Factory {
 }
 
 // build a fresh provider with the definitions applied in order; returns which were accepted
-func build(defs []odef) (*ocase, []bool) {
+func build(defs []odef, injs ...[]injSpec) (*ocase, []bool) {
 	c := &ocase{defs: defs, dp: dependency.NewProvider(app.DependencyTagName),
 		calls: map[string]int{}, built: map[string]int{}, setObjs: map[int]*oObj{}}
+	for _, specs := range injs {
+		var reals []app.Injector
+		for _, sp := range specs {
+			b := buildInj(sp, c.newInjObj)
+			c.regs = append(c.regs, b)
+			reals = append(reals, b.real)
+		}
+		c.dp.AddInjectors(reals)
+	}
 	acc := make([]bool, len(defs))
 	for i, d := range defs {
 		var err error
 		switch d.kind {
-		case "set":
-			c.serial++
-			o := &oObj{origin: i, serial: c.serial}
-			c.setObjs[i] = o
-			err = c.dp.Set(d.name, o)
-		case "setdefault":
-			c.serial++
-			o := &oObj{origin: i, serial: c.serial}
-			c.setObjs[i] = o
-			err = c.dp.SetDefault(d.name, o)
+		case "set", "setdefault":
+			var v interface{}
+			if !d.isNil {
+				c.serial++
+				o := &oObj{origin: i, serial: c.serial}
+				c.setObjs[i] = o
+				v = o
+			}
+			if d.kind == "set" {
+				err = c.dp.Set(d.name, v)
+			} else {
+				err = c.dp.SetDefault(d.name, v)
+			}
 		case "factory":
 			err = c.dp.AddFactory(d.name, c.factory(i))
 		case "deffactory":
@@ -147,7 +174,70 @@ func inForce(defs []odef, name string) int {
 	return first
 }
 
-func goodSet(defs []odef, names []string) map[string]bool {
+// is the definition in force for name a nil object?
+func nilInForce(defs []odef, name string) bool {
+	i := inForce(defs, name)
+	return i >= 0 && defs[i].isNil && (defs[i].kind == "set" || defs[i].kind == "setdefault")
+}
+
+// the raw text a field carries for tag number t
+func rawFor(f depSpec, t int) string {
+	if t == 0 {
+		return f.rawTag()
+	}
+	for _, kv := range f.extra {
+		if kv.tag == t {
+			return kv.raw
+		}
+	}
+	return ""
+}
+
+// Reference reading of one injector on a struct with these fields: a map / data-scope injector visits
+// the fields in order, reads ITS tag, stores its value, and fails on a required field it has no value
+// for (a nil value: the map injector fails, the data-scope injector has no value); a multi injector
+// runs its members in order and stops at the first failure.  vals is updated in place.
+func refRun(b builtInj, fields []depSpec, vals []interface{}) bool {
+	switch b.kind {
+	case '[':
+		for _, s := range b.sub {
+			if refRun(s, fields, vals) {
+				return true
+			}
+		}
+	case 'm', 's':
+		for i, f := range fields {
+			key, optional, skip := parseTag(rawFor(f, b.tag))
+			if skip {
+				continue
+			}
+			v, ok := b.data.vals[key]
+			if !ok || (b.kind == 's' && v == nil) {
+				if optional {
+					continue
+				}
+				return true
+			}
+			if v == nil {
+				return true
+			}
+			vals[i] = v
+		}
+	}
+	return false
+}
+
+// the registered injectors in registration order; index of the first that fails (-1: none)
+func refInjectors(regs []builtInj, fields []depSpec, vals []interface{}) int {
+	for k, b := range regs {
+		if refRun(b, fields, vals) {
+			return k
+		}
+	}
+	return -1
+}
+
+func goodSet(defs []odef, names []string, regs []builtInj) map[string]bool {
 	good := map[string]bool{}
 	for changed := true; changed; {
 		changed = false
@@ -164,8 +254,18 @@ func goodSet(defs []odef, names []string) map[string]bool {
 			if d.kind == "factory" || d.kind == "deffactory" {
 				ok = d.spec.out == "ok"
 				for _, e := range d.spec.deps {
-					if !e.optional && !good[e.name] {
+					name, optional, skip := e.eff()
+					if !skip && !optional && !good[name] {
 						ok = false
+					}
+					if e.inject {
+						// InjectTo refuses a nil object (for an optional field too) and runs the registered injectors
+						if !skip && nilInForce(defs, name) {
+							ok = false
+						}
+						if refInjectors(regs, []depSpec{{name: e.name, optional: e.optional}}, make([]interface{}, 1)) >= 0 {
+							ok = false
+						}
 					}
 				}
 			}
@@ -188,7 +288,9 @@ func reach(defs []odef, from []string) map[string]bool {
 		seen[n] = true
 		if i := inForce(defs, n); i >= 0 {
 			for _, e := range defs[i].spec.deps {
-				walk(e.name)
+				if name, _, skip := e.eff(); !skip {
+					walk(name)
+				}
 			}
 		}
 	}
@@ -216,31 +318,35 @@ func (o *oracleRun) fail(clause, detail string, ops []string) {
 func parseDefLine(line string) (odef, bool) {
 	f := strings.Split(line, " ")
 	switch {
-	case (f[0] == "set" || f[0] == "setdefault") && len(f) == 2:
-		return odef{kind: f[0], name: f[1]}, true
-	case (f[0] == "factory" || f[0] == "deffactory") && len(f) == 4:
+	case (f[0] == "set" || f[0] == "setdefault") && (len(f) == 2 || (len(f) == 3 && f[2] == "nil")) && validTok(f[1]):
+		return odef{kind: f[0], name: tokName(f[1]), isNil: len(f) == 3}, true
+	case (f[0] == "factory" || f[0] == "deffactory") && len(f) == 4 && validTok(f[1]):
 		deps, ok := parseDeps(f[2], true)
-		return odef{kind: f[0], name: f[1], spec: facSpec{deps, f[3]}}, ok
+		return odef{kind: f[0], name: tokName(f[1]), spec: facSpec{deps, f[3]}}, ok
 	}
 	return odef{}, false
 }
 
 // judge runs one program (protocol lines, first line `new`) on the real provider and evaluates every
-// clause of the property on what it observes.  Definitions count until the first resolution; the
-// expected answers come from the reference reading of the statement only.
+// clause of the property on what it observes.  Definitions and injectors count until the first
+// resolution (or until the provider is replaced by a static one); the expected answers come from the
+// reference reading of the statement only.
 func (o *oracleRun) judge(lines []string) {
 	o.cases++
 	hx.Progress()
 	var defs []odef
+	var injSpecs [][]injSpec
 	c := &ocase{dp: dependency.NewProvider(app.DependencyTagName), calls: map[string]int{}, built: map[string]int{},
 		setObjs: map[int]*oObj{}}
 	nameSet := map[string]bool{}
 	note := func(n string) { nameSet[n] = true }
 	var ops []string
 	blocked := false
+	static := false
 	var keysBefore []string
 	var good map[string]bool
 	firstVal := map[string]interface{}{}
+	hasVal := map[string]bool{}
 	freeze := func() {
 		if blocked {
 			return
@@ -249,32 +355,59 @@ func (o *oracleRun) judge(lines []string) {
 		o.evals["lazy"]++
 		for n, k := range c.calls {
 			if k != 0 {
-				o.fail("lazy", fmt.Sprintf("factory of %s ran %d times before any request", n, k), ops)
+				o.fail("lazy", fmt.Sprintf("factory of %s ran %d times before any request", nameTok(n), k), ops)
 			}
 		}
 		keys, _ := c.dp.Keys()
 		keysBefore = append([]string{}, keys...)
 	}
+	allNames := func(extra ...string) []string {
+		all := append([]string{}, extra...)
+		for n := range nameSet {
+			all = append(all, n)
+		}
+		for _, d := range defs {
+			all = append(all, d.name)
+		}
+		return all
+	}
+	isG := func(n string) bool {
+		if good == nil {
+			good = goodSet(defs, allNames(), c.regs)
+		}
+		if v, ok := good[n]; ok {
+			return v
+		}
+		return goodSet(defs, allNames(n), c.regs)[n] // a name first mentioned after the set was computed
+	}
 	observe := func(name string, v interface{}) {
 		o.evals["singleton"]++
-		if old, ok := firstVal[name]; ok {
-			if old != v {
-				o.fail("singleton", "a later request for "+name+" returned a different object", ops)
+		if hasVal[name] {
+			if firstVal[name] != v {
+				o.fail("singleton", "a later request for "+nameTok(name)+" returned a different object", ops)
 			}
 		} else {
+			hasVal[name] = true
 			firstVal[name] = v
 		}
 		o.evals["explicit_wins"]++
 		want := inForce(defs, name)
+		if want >= 0 && nilInForce(defs, name) {
+			o.evals["nil_definition"]++
+			if v != nil {
+				o.fail("explicit_wins", nameTok(name)+" is defined as nil but an object came back", ops)
+			}
+			return
+		}
 		ob, isObj := v.(*oObj)
 		if !isObj || ob == nil || ob.origin != want {
 			got := -1
 			if isObj && ob != nil {
 				got = ob.origin
 			}
-			o.fail("explicit_wins", fmt.Sprintf("%s resolved through definition #%d, the definition in force is #%d", name, got, want), ops)
+			o.fail("explicit_wins", fmt.Sprintf("%s resolved through definition #%d, the definition in force is #%d", nameTok(name), got, want), ops)
 		} else if so, ok := c.setObjs[want]; ok && so != ob {
-			o.fail("explicit_wins", name+" is not the object that was registered", ops)
+			o.fail("explicit_wins", nameTok(name)+" is not the object that was registered", ops)
 		}
 	}
 	for _, line := range lines {
@@ -283,10 +416,52 @@ func (o *oracleRun) judge(lines []string) {
 			continue
 		}
 		ops = append(ops, line)
+		f := strings.Split(line, " ")
+		if f[0] == "addinjectors" && len(f) == 2 {
+			specs, ok := parseInjSpec(f[1])
+			if !ok {
+				continue
+			}
+			var reals []app.Injector
+			var built []builtInj
+			for _, sp := range specs {
+				b := buildInj(sp, c.newInjObj)
+				built = append(built, b)
+				reals = append(reals, b.real)
+			}
+			err := c.dp.AddInjectors(reals)
+			if blocked {
+				o.evals["frozen_after_first_use"]++
+				if err == nil {
+					o.fail("frozen_after_first_use", "AddInjectors accepted after the first resolution: "+line, ops)
+				}
+			} else if err != nil {
+				o.fail("injectors", "AddInjectors refused before any resolution", ops)
+			} else {
+				c.regs = append(c.regs, built...)
+				injSpecs = append(injSpecs, specs)
+			}
+			continue
+		}
+		if f[0] == "static" && len(f) == 1 {
+			freeze()
+			c.dp = staticFrom(c.dp)
+			static = true
+			keys, _ := c.dp.Keys()
+			keysBefore = append([]string{}, keys...)
+			continue
+		}
+		if f[0] == "injectbad" && len(f) == 2 {
+			hx.Guard(func() { injectBad(c.dp, f[1]) })
+			continue
+		}
 		if d, ok := parseDefLine(line); ok {
 			note(d.name)
 			for _, e := range d.spec.deps {
 				note(e.name)
+				if n, _, skip := e.eff(); !skip {
+					note(n)
+				}
 			}
 			idx := len(defs)
 			if blocked {
@@ -306,22 +481,22 @@ func (o *oracleRun) judge(lines []string) {
 				c.defs = defs
 			}
 			var err error
-			c.serial++
-			obj := &oObj{origin: idx, serial: c.serial}
-			if blocked {
-				obj.origin = -2
+			var val interface{}
+			if !d.isNil {
+				c.serial++
+				obj := &oObj{origin: idx, serial: c.serial}
+				if blocked {
+					obj.origin = -2
+				} else if d.kind == "set" || d.kind == "setdefault" {
+					c.setObjs[idx] = obj
+				}
+				val = obj
 			}
 			switch d.kind {
 			case "set":
-				if !blocked {
-					c.setObjs[idx] = obj
-				}
-				err = c.dp.Set(d.name, obj)
+				err = c.dp.Set(d.name, val)
 			case "setdefault":
-				if !blocked {
-					c.setObjs[idx] = obj
-				}
-				err = c.dp.SetDefault(d.name, obj)
+				err = c.dp.SetDefault(d.name, val)
 			case "factory":
 				err = c.dp.AddFactory(d.name, fac)
 			case "deffactory":
@@ -338,7 +513,6 @@ func (o *oracleRun) judge(lines []string) {
 			}
 			continue
 		}
-		f := strings.Split(line, " ")
 		if f[0] == "keys" {
 			if blocked {
 				o.evals["frozen_after_first_use"]++
@@ -349,8 +523,8 @@ func (o *oracleRun) judge(lines []string) {
 			continue
 		}
 		var q oreq
-		if f[0] == "get" && len(f) == 2 {
-			q.get = f[1]
+		if f[0] == "get" && len(f) == 2 && validTok(f[1]) {
+			q.get, q.isGet = tokName(f[1]), true
 		} else if f[0] == "inject" && len(f) == 2 {
 			q.fields, _ = parseDeps(f[1], false)
 			if q.fields == nil {
@@ -362,17 +536,10 @@ func (o *oracleRun) judge(lines []string) {
 		for _, n := range q.names() {
 			note(n)
 		}
-		if q.get != "" || len(q.fields) > 0 {
+		if q.resolves() {
 			freeze()
 			if good == nil {
-				all := []string{}
-				for n := range nameSet {
-					all = append(all, n)
-				}
-				for _, d := range defs {
-					all = append(all, d.name)
-				}
-				good = goodSet(defs, all)
+				good = goodSet(defs, allNames(), c.regs)
 			}
 		}
 		before := map[string]int{}
@@ -380,19 +547,22 @@ func (o *oracleRun) judge(lines []string) {
 			before[n] = v
 		}
 		hadInstance := map[string]bool{}
-		for n := range firstVal {
+		for n := range hasVal {
 			hadInstance[n] = true
 		}
 		c.ran = nil
 		var panicked bool
-		if q.get != "" {
+		if static {
+			o.evals["static_provider"]++
+		}
+		if q.isGet {
 			var v interface{}
 			var err error
 			panicked, _ = hx.Guard(func() { v, err = c.dp.Get(q.get) })
 			if !panicked {
 				o.evals["outcome_history_independent"]++
-				if g := isGood(good, defs, q.get); (err == nil) != g {
-					o.fail("outcome_history_independent", fmt.Sprintf("Get %s ok=%v but good=%v", q.get, err == nil, g), ops)
+				if g := isG(q.get); (err == nil) != g {
+					o.fail("outcome_history_independent", fmt.Sprintf("Get %s ok=%v but good=%v", nameTok(q.get), err == nil, g), ops)
 				}
 				if err == nil {
 					observe(q.get, v)
@@ -403,28 +573,65 @@ func (o *oracleRun) judge(lines []string) {
 			var err error
 			panicked, _ = hx.Guard(func() { err = c.dp.InjectTo(ptr.Interface()) })
 			if !panicked {
+				// the provider's own loop, by the reference reading
+				n := len(q.fields)
+				own := make([]bool, n) // the provider stores the singleton here
 				stopped := false
 				for i, fl := range q.fields {
-					v := fieldValue(ptr, i)
-					if v != nil {
-						observe(fl.name, v)
-					}
-					if stopped {
-						if v != nil {
-							o.fail("inject_error", "a field after the failing one was set", ops)
-						}
+					name, optional, skip := parseTag(fl.rawTag())
+					if skip {
 						continue
 					}
-					o.evals["outcome_history_independent"]++
-					if (v != nil) != isGood(good, defs, fl.name) {
-						o.fail("outcome_history_independent", fmt.Sprintf("field %d (%s) set=%v but good=%v", i, fl.name, v != nil, v == nil), ops)
+					g := isG(name)
+					if g && nilInForce(defs, name) {
+						o.evals["nil_definition"]++
+						stopped = true // a nil object is refused, for an optional field too
+						break
 					}
-					if v == nil && !fl.optional {
+					if g {
+						own[i] = true
+						continue
+					}
+					if !optional {
 						stopped = true
+						break
 					}
 				}
-				if stopped != (err != nil) {
-					o.fail("inject_error", "InjectTo error does not match required fields left empty", ops)
+				// then the registered injectors, in registration order
+				inj := make([]interface{}, n)
+				failedInj := -1
+				if !stopped {
+					failedInj = refInjectors(c.regs, q.fields, inj)
+				}
+				for i, fl := range q.fields {
+					v := fieldValue(ptr, i)
+					name, _, _ := parseTag(fl.rawTag())
+					switch {
+					case inj[i] != nil:
+						o.evals["extra_injector_order"]++
+						if v != inj[i] {
+							o.fail("extra_injector_order", fmt.Sprintf("field %d does not hold the value of the last registered injector that has one", i), ops)
+						}
+					case own[i]:
+						o.evals["outcome_history_independent"]++
+						if v == nil {
+							o.fail("outcome_history_independent", fmt.Sprintf("field %d (%s) left empty but the dependency is good", i, nameTok(name)), ops)
+						} else {
+							observe(name, v)
+						}
+					default:
+						o.evals["outcome_history_independent"]++
+						if v != nil {
+							if stopped {
+								o.fail("inject_error", fmt.Sprintf("field %d was set although it is not resolvable or lies behind the failing field", i), ops)
+							} else {
+								o.fail("outcome_history_independent", fmt.Sprintf("field %d (%s) set but the dependency is not good", i, nameTok(name)), ops)
+							}
+						}
+					}
+				}
+				if (stopped || failedInj >= 0) != (err != nil) {
+					o.fail("inject_error", fmt.Sprintf("InjectTo error=%v but the reference says own-loop-failed=%v failing-injector=%d", err != nil, stopped, failedInj), ops)
 				}
 			}
 		}
@@ -436,16 +643,16 @@ func (o *oracleRun) judge(lines []string) {
 		rs := reach(defs, q.names())
 		for _, n := range c.ran {
 			if !rs[n] {
-				o.fail("lazy", "factory of "+n+" ran although nothing requested depends on it", ops)
+				o.fail("lazy", "factory of "+nameTok(n)+" ran although nothing requested depends on it", ops)
 			}
 		}
 		for n := range c.calls {
 			o.evals["never_rerun_after_instance"]++
 			if hadInstance[n] && c.calls[n] != before[n] {
-				o.fail("never_rerun_after_instance", "factory of "+n+" ran again after it had produced an instance", ops)
+				o.fail("never_rerun_after_instance", "factory of "+nameTok(n)+" ran again after it had produced an instance", ops)
 			}
 			if c.built[n] > 1 {
-				o.fail("at_most_one_success", fmt.Sprintf("factory of %s succeeded %d times", n, c.built[n]), ops)
+				o.fail("at_most_one_success", fmt.Sprintf("factory of %s succeeded %d times", nameTok(n), c.built[n]), ops)
 			}
 		}
 	}
@@ -461,44 +668,49 @@ func (o *oracleRun) judge(lines []string) {
 	for _, n := range names {
 		o.evals["fresh_container_equivalence"]++
 		_, errA := c.dp.Get(n)
-		fresh, _ := build(defs)
+		fresh, _ := build(defs, injSpecs...)
 		_, errB := fresh.dp.Get(n)
 		if (errA == nil) != (errB == nil) {
-			o.fail("fresh_container_equivalence", fmt.Sprintf("Get %s after the history ok=%v, in a fresh container ok=%v", n, errA == nil, errB == nil),
-				append(append([]string{}, ops...), "get "+n))
+			o.fail("fresh_container_equivalence", fmt.Sprintf("Get %s after the history ok=%v, in a fresh container ok=%v", nameTok(n), errA == nil, errB == nil),
+				append(append([]string{}, ops...), "get "+nameTok(n)))
 		}
-		if (errB == nil) != isGood(good, defs, n) {
+		if (errB == nil) != isG(n) {
 			fr := []string{"new"}
+			for _, l := range ops {
+				if strings.HasPrefix(l, "addinjectors ") {
+					fr = append(fr, l)
+				}
+			}
 			for _, d := range defs {
 				fr = append(fr, d.line())
 			}
-			o.fail("outcome_history_independent", fmt.Sprintf("fresh container: Get %s ok=%v", n, errB == nil), append(fr, "get "+n))
+			o.fail("outcome_history_independent", fmt.Sprintf("fresh container: Get %s ok=%v", nameTok(n), errB == nil), append(fr, "get "+nameTok(n)))
 		}
 	}
-}
-
-func isGood(good map[string]bool, defs []odef, n string) bool {
-	if v, ok := good[n]; ok {
-		return v
-	}
-	return goodSet(defs, []string{n})[n] // a name first mentioned after the set was computed: no dependencies on it are new
 }
 
 type oreq struct {
 	get    string
+	isGet  bool
 	fields []depSpec
 }
 
+// the names the request asks the provider for
 func (q oreq) names() []string {
-	if q.get != "" {
+	if q.isGet {
 		return []string{q.get}
 	}
 	res := []string{}
 	for _, f := range q.fields {
-		res = append(res, f.name)
+		if n, _, skip := parseTag(f.rawTag()); !skip {
+			res = append(res, n)
+		}
 	}
 	return res
 }
+
+// does the request reach Get (and so block the provider)?
+func (q oreq) resolves() bool { return q.isGet || len(q.names()) > 0 }
 
 func (o *oracleRun) randomCase(r *hx.Rand) {
 	var sb strings.Builder
@@ -506,6 +718,56 @@ func (o *oracleRun) randomCase(r *hx.Rand) {
 	genProgram(r, w)
 	w.Flush()
 	o.judge(strings.Split(strings.TrimSpace(sb.String()), "\n"))
+}
+
+func (o *oracleRun) extCase(r *hx.Rand) {
+	var sb strings.Builder
+	w := bufio.NewWriter(&sb)
+	genProgramExt(r, w)
+	w.Flush()
+	o.judge(strings.Split(strings.TrimSpace(sb.String()), "\n"))
+}
+
+// static_provider_agrees on the implementation alone: the same program on two providers, one of which
+// is replaced by NewStaticProvider (built from its own tables) at some point while the other is only
+// blocked there; every later answer - refusals, instances by identity class, injected structs, error
+// kinds, the factories each request ran, the invocation counters - must be the same (Keys excepted).
+func (o *oracleRun) staticTwin(r *hx.Rand) {
+	var sb strings.Builder
+	w := bufio.NewWriter(&sb)
+	genProgramExt(r, w)
+	w.Flush()
+	lines := strings.Split(strings.TrimSpace(sb.String()), "\n")
+	at := 1 + r.Intn(len(lines))
+	lines = append(lines[:at], append([]string{"static"}, lines[at:]...)...)
+	o.cases++
+	hx.Progress()
+	a, b := newProg(), newProg()
+	for i, line := range lines {
+		if i == 0 {
+			continue
+		}
+		if line == "static" {
+			a.dp.(*dependency.Provider).Block()
+			b.op(line)
+			continue
+		}
+		var ra, rb string
+		if p, _ := hx.Guard(func() { ra = a.op(line) }); p {
+			ra = "panic"
+		}
+		if p, _ := hx.Guard(func() { rb = b.op(line) }); p {
+			rb = "panic"
+		}
+		if line == "keys" {
+			continue
+		}
+		o.evals["static_provider_agrees"]++
+		if ra != rb {
+			o.fail("static_provider_agrees", fmt.Sprintf("`%s`: the provider answers `%s`, its static twin `%s`", line, ra, rb), lines[:i+1])
+			return
+		}
+	}
 }
 
 // judge mode: programs on stdin, FAIL lines or `judge ok` on stdout
@@ -698,6 +960,15 @@ func oracle(n int) {
 	for i := 0; i < n; i++ {
 		hx.Progress()
 		o.randomCase(r)
+	}
+	// the extended operation set: an additional stream
+	rx := hx.NewRand(hx.SeedFromEnv() ^ 0x5eed0c1e)
+	for i := 0; i < n/2; i++ {
+		hx.Progress()
+		o.extCase(rx)
+	}
+	for i := 0; i < n/4; i++ {
+		o.staticTwin(rx)
 	}
 	keys := make([]string, 0, len(o.evals))
 	for k := range o.evals {
